@@ -229,7 +229,9 @@ theorem evInbound_Port {w : World} {p : World × Option Err} (h : PortInv w) (hE
     PortInv p.1 := by
   unfold evInbound at hE
   split at hE
-  · cases hE; exact addConn_Port_in _ _ h
+  · split at hE
+    · cases hE; exact addConn_Port_in _ _ h
+    · cases hE; exact h.of_eq rfl rfl
   · cases hE
 
 theorem evConnected_Port {w : World} {k : Nat} {p : World × Option Err} (h : PortInv w)
@@ -362,9 +364,11 @@ theorem step_Port (w : World) (e : Event) (h : PortInv w) : PortInv (step w e) :
     | some p => exact evInbound_Port h hE
   | connect =>
     simp only [step]
-    cases hE : evConnect w with
-    | none => exact h
-    | some w' => exact evConnect_Port h hE
+    split
+    · cases hE : evConnect w with
+      | none => exact h
+      | some w' => exact evConnect_Port h hE
+    · exact h
   | connected k =>
     simp only [step]
     cases hE : evConnected w k with
@@ -390,6 +394,7 @@ theorem step_Port (w : World) (e : Event) (h : PortInv w) : PortInv (step w e) :
   | advance dt =>
     simp only [step, evAdvance]
     exact foldl_Port fireTimer fireTimer_Port _ _ (h.of_eq rfl rfl)
+  | setKey => exact h.of_eq rfl rfl
 
 theorem Port_init (cfg : Cfg) (l : Bool) (d : Nat) (r : List Nat) : PortInv (initWorld cfg l d r) := by
   refine ⟨?_, ?_⟩
